@@ -3,5 +3,4 @@ NEXT Next
 INVARIANT LawInverse
 INVARIANT LawCanon
 INVARIANT LawDevScope
-INVARIANT LawWs
 CHECK_DEADLOCK FALSE
